@@ -19,7 +19,7 @@ RULE = (
     "screen); distinct = hash of both; non-trivial = the screen holds a control in some column and >=2 rows"
 )
 ASSUMPTIONS = ["the interaction sample type links through exp and the Bliss baseline: its viability is checked against its own documented formula and its mean must be 0 whenever a control is present"]
-REQUIRED = {"integer_typed_precisions": {"quick": 80, "thorough": 2000}, "partial_holder_helper_calls": {"quick": 200, "thorough": 3000}, "theta_screen_pairs": {"quick": 1500, "thorough": 40000}, "purity_checks": {"quick": 6000, "thorough": 150000}, "control_neutrality_rows": {"quick": 3000, "thorough": 80000}, "helper_checks": {"quick": 200, "thorough": 5000}, "large_screens": {"quick": 8, "thorough": 60}}
+REQUIRED = {"whole_library_predictions": {"quick": 2, "thorough": 6}, "integer_typed_precisions": {"quick": 80, "thorough": 2000}, "partial_holder_helper_calls": {"quick": 200, "thorough": 3000}, "theta_screen_pairs": {"quick": 1500, "thorough": 40000}, "purity_checks": {"quick": 6000, "thorough": 150000}, "control_neutrality_rows": {"quick": 3000, "thorough": 80000}, "helper_checks": {"quick": 200, "thorough": 5000}, "large_screens": {"quick": 8, "thorough": 60}}
 N_PAIRS = {"quick": 4000, "thorough": 64000}
 
 
@@ -274,6 +274,8 @@ def run_shard(rec, tier, seed, shard, nshards):
             if pi == 0 and shard == 0:
                 rec.sample({"kind": kind, "arity": arity, "treatment_ids": tids.tolist()[:6], "mean": mean[:6].tolist(), "viability": via[:6].tolist(), "variance": float(var[0]) if n else None})
         large_screens(rec, tier, rng)
+        if shard == 3:
+            whole_library_screen(rec, tier, rng)
     finally:
         P.undo()
     if tier == "thorough" and shard == 0:
@@ -321,6 +323,52 @@ def large_screens(rec, tier, rng):
             o = rng.permutation(n)
             sp2 = Screen(treatment_names=tn[o].astype(str), treatment_doses=td[o].astype(float), sample_names=sn[o].astype(str), plate_names=np.array(["p"] * n, dtype=str), treatment_mapping=screen.treatment_mapping, sample_mapping=screen.sample_mapping)
             rec.check(kit.close(np.asarray(th.predict_conditional_mean(sp2)), mean[o], rel=1e-15), "C09/rowwise/depends-on-row-order", "predictions on a %d-row screen change with the row order" % n, w)
+
+
+def whole_library_screen(rec, tier, rng):
+    """A screen of whole-library size: several hundred thousand experiments and embeddings of 16 / 64 dimensions (more
+    than 2**24 gathered entries). A prediction is a function of the experiment alone at this size too: sampled rows
+    agree with the double-precision row-wise reference, with the prediction of a subset and of a small plate."""
+    from batchie.data import Screen, ExperimentSpace
+
+    for n, D in ([(262500, 64)] if tier == "quick" else [(262500, 64), (1050000, 16), (131100, 128)]):
+        nS, nD = 40, 300
+        drugs = np.array(["d%03d" % i for i in range(nD)] + [""])
+        tn = drugs[rng.integers(0, nD + 1, size=(n, 2))]
+        td = np.where(tn == "", 0.0, rng.choice([0.5, 1.0, 2.0], size=(n, 2)))
+        sn = np.array(["s%02d" % i for i in rng.integers(0, nS, size=n)])
+        pn = np.array(["p"] * n, dtype="<U5")
+        pn[-37:] = "small"
+        screen = Screen(treatment_names=tn.astype(str), treatment_doses=td.astype(float), sample_names=sn.astype(str), plate_names=pn)
+        sp = ExperimentSpace.from_screen(screen)
+        for kind in ("sparse", "interaction"):
+            th = gen.random_sparse_combo_theta(rng, sp.n_unique_samples, sp.n_unique_treatments, D=D, scale=0.3) if kind == "sparse" else gen.random_interaction_theta(rng, sp.n_unique_samples, sp.n_unique_treatments, D=D, scale=0.3)
+            w = {"kind": kind, "rows": n, "dims": D, "gathered_entries": n * D}
+            rec.case(("whole-library", kind, n, D), nontrivial=True)
+            try:
+                mean = np.asarray(th.predict_conditional_mean(screen), dtype=float)
+                via = np.asarray(th.predict_viability(screen), dtype=float)
+            except Exception as e:
+                rec.violation("C09/predict/raises", "%s prediction on %d rows raised %r" % (kind, n, e), w)
+                continue
+            rec.count("whole_library_predictions")
+            rows = np.sort(rng.choice(n, size=3000, replace=False))
+            sids, tids = np.asarray(screen.sample_ids)[rows], np.asarray(screen.treatment_ids)[rows]
+            z = lambda A: np.concatenate([np.asarray(A, dtype=float), np.zeros((1,) + np.asarray(A).shape[1:])])
+            W = np.asarray(th.W, dtype=float)[sids]
+            if kind == "sparse":
+                ref = th.alpha + th.W0[sids] + z(th.V0)[tids[:, 0]] + z(th.V0)[tids[:, 1]] + np.sum(W * (z(th.V1)[tids[:, 0]] + z(th.V1)[tids[:, 1]]), axis=1) + np.sum(W * z(th.V2)[tids[:, 0]] * z(th.V2)[tids[:, 1]], axis=1)
+            else:
+                ref = np.sum(W * z(th.V2)[tids[:, 0]] * z(th.V2)[tids[:, 1]], axis=1)
+            bad = np.flatnonzero(np.abs(mean[rows] - ref) > 1e-9 * (1 + np.abs(ref)) * (1 + _mag(th)))
+            rec.check(mean.shape == (n,) and bad.size == 0, "C09/mean/differs-from-reference", lambda: "%d-row screen, %d dimensions: %d of 3000 sampled rows differ from the double-precision row-wise reference, first by %r" % (n, D, bad.size, float(np.abs(mean[rows] - ref)[bad[0]])), w)
+            m = np.zeros(n, dtype=bool)
+            m[rows] = True
+            sub = screen.subset(m)
+            rec.check(np.array_equal(np.asarray(th.predict_conditional_mean(sub)), mean[m]) and np.array_equal(np.asarray(th.predict_viability(sub)), via[m]), "C09/rowwise/subset-differs-from-whole", "a 3000-row subset of a %d-row screen (%d dimensions) predicts differently from the whole" % (n, D), w)
+            small = [p for p in screen.plates if p.size == 37][0]
+            rec.check(np.array_equal(np.asarray(th.predict_conditional_mean(small)), mean[np.asarray(small.selection_vector)]), "C09/rowwise/subset-differs-from-whole", "a 37-experiment plate of a %d-row screen (%d dimensions) predicts differently from the whole" % (n, D), w)
+        del screen
 
 
 def _mag(th):
